@@ -239,6 +239,20 @@ fn main() {
       let outs = h::reqrep::run_all();
       h::util::write_json(&args[2], &json!({"runs": outs.len(), "outcomes": outs}));
     }
+    "router" => {
+      // vh router <behaviours.jsonl> <out.json> [--perturb]
+      let beh: Vec<h::router::Behaviour> = h::util::read_jsonl(&args[2]);
+      let perturb = args.iter().any(|a| a == "--perturb");
+      let mut outs = Vec::new();
+      for (i, b) in beh.iter().enumerate() {
+        let o = h::router::run(i, b, &["1", "2", "3"], &["A", "B"], perturb);
+        if !o.issues.is_empty() {
+          outs.push(serde_json::to_value(&o).unwrap());
+        }
+      }
+      let env = h::router::envelope_roundtrip();
+      h::util::write_json(&args[3], &json!({"runs": beh.len(), "with_issues": outs.len(), "envelope_issues": env, "outcomes": outs.into_iter().take(100).collect::<Vec<_>>()}));
+    }
     other => h::util::tool_error(&format!("unknown subcommand {}", other)),
   }
 }
